@@ -556,28 +556,8 @@ func runC19(w *mc.Worker) {
 				}
 				w.Owned()
 				w.Inner(0, func(in *mc.Explorer) {
-					seps := pr.DefaultSeps()
+					seps := navLayout(pr, layouts[in.Choose(len(layouts))])
 					n := len(pr.Toks)
-					switch layouts[in.Choose(len(layouts))] {
-					case 1: // one token per line, indentation falling 4,2,0,4,2,0,...
-						for i := 0; i < n; i++ {
-							seps[i] = "\n" + strings.Repeat(" ", 2*((n-1-i)%3))
-						}
-						if n > 0 {
-							seps[0] = seps[0][1:]
-						}
-					case 3: // compact: no blank wherever the two neighbours still lex as themselves (touching tokens)
-						for i := 1; i < n; i++ {
-							if lx := ref.Lex(pr.Toks[i-1] + pr.Toks[i]); len(lx.Toks) == 2 && lx.Toks[0].Text == pr.Toks[i-1] && lx.Toks[1].Text == pr.Toks[i] && !lx.Err && !lx.Unmodelled {
-								seps[i] = ""
-							}
-						}
-					case 2: // one token per line, indentation rising 0,2,4,0,2,4,...
-						for i := 1; i < n; i++ {
-							seps[i] = "\n" + strings.Repeat(" ", 2*(i%3))
-						}
-					}
-					seps[n] = "\n"
 					ltext, starts, ends := pr.Render(seps)
 					if lx := ref.Lex(ltext); len(lx.Toks) != n {
 						w.Count("compact-layout-relexes-differently", 1)
@@ -588,8 +568,84 @@ func runC19(w *mc.Worker) {
 			})
 		})
 	}
-	navStage(fmt.Sprintf("navigation-v%d", weight), weight, []int{0, 3}, "the one-line layout and the compact layout (no blank between two tokens that still lex as themselves: touching tokens)")
+	navStage(fmt.Sprintf("navigation-v%d", weight), weight, []int{0, 3, 4}, "the one-line layout, the compact layout (no blank between two tokens that still lex as themselves: touching tokens) and a layout where every variable token ends its line")
+	// scoping: uses that must NOT resolve (a variable named in an origin before its declaration, or in
+	// its own origin), duplicates, a duplicate whose origin names the variable it repeats
+	w.Stage("navigation-scoping", "8 hand-built scripts about declaration order, self-reference and duplicates x 5 layouts x every position", func() {
+		mk := func(typ, name string, origin *gen.Call) *gen.VarDecl {
+			return &gen.VarDecl{Type: &gen.TypeName{Name: typ}, Name: gen.V(name), Origin: origin}
+		}
+		call := func(fn string, args ...gen.Expr) *gen.Call { return &gen.Call{Name: fn, Args: args} }
+		send := func(src gen.Expr, amt gen.Expr) gen.Stmt {
+			return &gen.Send{Sent: &gen.SentLit{E: amt}, Src: &gen.SrcAccount{E: src}, Dst: da("x")}
+		}
+		progs := []*gen.Program{
+			{Vars: []*gen.VarDecl{mk("monetary", "b", call("balance", gen.V("acc"), gen.Asset("USD"))), mk("account", "acc", nil)}, Stmts: []gen.Stmt{send(gen.V("acc"), gen.V("b"))}},
+			{Vars: []*gen.VarDecl{mk("account", "acc", nil), mk("monetary", "b", call("balance", gen.V("acc"), gen.Asset("USD")))}, Stmts: []gen.Stmt{send(gen.V("acc"), gen.V("b"))}},
+			{Vars: []*gen.VarDecl{mk("account", "s", call("meta", gen.V("s"), gen.Str("next")))}, Stmts: []gen.Stmt{send(gen.V("s"), gen.Mon("USD", "1"))}},
+			{Vars: []*gen.VarDecl{mk("account", "a", nil), mk("account", "a", call("meta", gen.V("a"), gen.Str("next")))}, Stmts: []gen.Stmt{send(gen.V("a"), gen.Mon("USD", "1"))}},
+			{Vars: []*gen.VarDecl{mk("account", "a", nil), mk("number", "a", nil)}, Stmts: []gen.Stmt{send(gen.V("a"), gen.Mon("USD", "1"))}},
+			{Vars: []*gen.VarDecl{mk("account", "a", call("meta", gen.V("z"), gen.Str("k"))), mk("account", "z", nil), mk("account", "y", call("meta", gen.V("a"), gen.Str("k")))}, Stmts: []gen.Stmt{send(gen.V("y"), gen.Mon("USD", "1")), send(gen.V("z"), gen.Mon("USD", "2"))}},
+			{Vars: []*gen.VarDecl{mk("account", "a", nil)}, Stmts: []gen.Stmt{send(gen.V("a"), gen.Mon("USD", "1")), send(gen.V("nope"), gen.Mon("USD", "1")), &gen.Call{Name: "set_tx_meta", Args: []gen.Expr{gen.Str("😀 𐐀"), gen.V("a")}}}},
+			{Vars: []*gen.VarDecl{mk("account", "ab", nil), mk("account", "a", nil)}, Stmts: []gen.Stmt{&gen.Send{Sent: &gen.SentLit{E: gen.Mon("USD", "1")}, Src: lst(&gen.SrcAccount{E: gen.V("a")}, &gen.SrcAccount{E: gen.V("ab")}), Dst: da("x")}}},
+		}
+		for _, p := range progs {
+			p.HasVars = true
+		}
+		w.Outer("navigation-scoping/script", 0, func(o *mc.Explorer) {
+			pi := o.Choose(len(progs))
+			lay := o.Choose(5)
+			if !w.Mine(fmt.Sprint("scoping", pi, lay)) {
+				return
+			}
+			w.Owned()
+			prog := progs[pi]
+			pr := gen.Print(prog)
+			w.Inner(0, func(in *mc.Explorer) {
+				seps := navLayout(pr, lay)
+				ltext, starts, ends := pr.Render(seps)
+				if lx := ref.Lex(ltext); len(lx.Toks) != len(pr.Toks) {
+					return
+				}
+				navCheck(w, prog, pr, ltext, starts, ends, uris[0])
+			})
+		})
+	})
 	navStage(fmt.Sprintf("navigation-layouts-v%d", weight-1), weight-1, []int{1, 2}, "2 layouts with one token per line (indentation falling / rising, so that earlier tokens start right / left of later ones)")
+}
+
+// navLayout: the separators of one of the navigation layouts (0 one line, 1 / 2 one token per line with
+// falling / rising indentation, 3 compact, 4 a line break after every variable token).
+func navLayout(pr *gen.Printed, layout int) []string {
+	seps := pr.DefaultSeps()
+	n := len(pr.Toks)
+	switch layout {
+	case 1: // one token per line, indentation falling 4,2,0,4,2,0,...
+		for i := 0; i < n; i++ {
+			seps[i] = "\n" + strings.Repeat(" ", 2*((n-1-i)%3))
+		}
+		if n > 0 {
+			seps[0] = seps[0][1:]
+		}
+	case 3: // compact: no blank wherever the two neighbours still lex as themselves (touching tokens)
+		for i := 1; i < n; i++ {
+			if lx := ref.Lex(pr.Toks[i-1] + pr.Toks[i]); len(lx.Toks) == 2 && lx.Toks[0].Text == pr.Toks[i-1] && lx.Toks[1].Text == pr.Toks[i] && !lx.Err && !lx.Unmodelled {
+				seps[i] = ""
+			}
+		}
+	case 4: // a line break after every variable token: each use ends its line
+		for i := 1; i < n; i++ {
+			if strings.HasPrefix(pr.Toks[i-1], "$") {
+				seps[i] = "\n"
+			}
+		}
+	case 2: // one token per line, indentation rising 0,2,4,0,2,4,...
+		for i := 1; i < n; i++ {
+			seps[i] = "\n" + strings.Repeat(" ", 2*(i%3))
+		}
+	}
+	seps[n] = "\n"
+	return seps
 }
 
 func indexOf(xs []string, x string) int {
